@@ -114,6 +114,28 @@ Theorem c08_gamespy1_vars_any_order : forall port s dgs,
 Proof. exact gs1_vars_any_order. Qed.
 Print Assumptions c08_gamespy1_vars_any_order.
 
+(* GameSpy 1: a part that arrives twice.  After any in-order prefix of parts that are not the last, a datagram carrying a
+   part number that has already been received ends the attempt with PacketBad: it is neither taken nor waited out *)
+From GD Require Import Proofs.Gamespy1Partial Proofs.Gamespy1Dup.
+Theorem c08_gamespy1_open_parts_mean : forall qid ff j g r,
+  texts_open qid ff j [] = [] /\ texts_open qid ff j (g :: r) = part_text g qid (N.of_nat (S j)) false ff :: texts_open qid ff (S j) r.
+Proof. intros. split; reflexivity. Qed.
+Print Assumptions c08_gamespy1_open_parts_mean.
+Theorem c08_gamespy1_duplicate_part : forall (groups : list (list (bytes * bytes))) qid ff vals g i (last : bool) fuel (u : list udp_event) t f sn cur tr,
+  groups <> [] ->
+  Forall (fun g => g <> [] /\ Forall pair_ok g) groups ->
+  Forall (fun d => (length d <= 1024)%nat) (texts_open qid ff 0 groups) ->
+  qid <= 18446744073709551615 -> N.of_nat (length groups) < 4294967296 ->
+  nokey (str "final") vals -> nokey (str "queryid") vals ->
+  g <> [] -> Forall pair_ok g -> (length (part_text g qid i last ff) <= 1024)%nat ->
+  0 < i <= N.of_nat (length groups) ->
+  exists tr',
+    gs1_loop (length groups + S fuel) None [] None vals
+             (mknet (map Datagram (texts_open qid ff 0 groups) ++ Datagram (part_text g qid i last ff) :: u) t f sn cur tr)
+    = (Err PacketBad, mknet u t f sn cur tr').
+Proof. exact gs1_duplicate_part_is_refused. Qed.
+Print Assumptions c08_gamespy1_duplicate_part.
+
 (* tests: a generated multi-packet GameSpy 3 response and a multi-part GameSpy 1
    response, received in reverse order, give the in-order result *)
 Example c08_ex_gamespy :
